@@ -4,6 +4,6 @@ CONSTANTS
   MaxLen = 6
   BDepth = 2
   Obs <- ObsEmit
-INVARIANTS TypeOK Sorted BagConservation FindIffPresent IterLaw
+INVARIANTS TypeOK Sorted BagConservation FindIffPresent FillLaw IterLaw
 PROPERTIES MutatorsOnly SlotsIndependent DupIsEqual
 CHECK_DEADLOCK FALSE
